@@ -247,7 +247,13 @@ class WriterOracles(Oracles):
             return Adt(RESULT, 0, [Int(64, False, val=1)])
         if name in ("write_all", "write_str") and len(args) == 2:
             b = bytes_of(it, args[1])
-            self.put(it, bytes(b).decode("utf-8", "replace") if b is not None else "\u0001<unknown write>", args[0])
+            if b is not None:
+                txt = bytes(b).decode("utf-8", "replace")
+            else:
+                # the bytes of a modelled text value (a node's sequence text, a tag string, a formatted piece)
+                v_ = recv(it, args[1])
+                txt = self.render_arg(it, FmtArg("display", v_)) if isinstance(v_, Opaque) and (v_.tags & {"dna-text", "formatted", "tag-string", "json-value"}) else "\u0001<unknown write>"
+            self.put(it, txt, args[0])
             return Adt(RESULT, 0, [Tup([])])
         if path == "serde_json::to_writer":
             self.put(it, '{"v":[1,"x"]}', args[0] if args else None)
@@ -256,6 +262,10 @@ class WriterOracles(Oracles):
             return Adt(RESULT, 0, [Opaque("File", {"file"})])
         if name == "flush" and tr.endswith("io::Write") and len(args) == 1:
             return Adt(RESULT, 0, [Tup([])])
+        if name == "to_string" and tr.endswith("ToString") and len(args) == 1:
+            v_ = recv(it, args[0])
+            if isinstance(v_, Int) and v_.is_conc() and v_.kind != "bool":
+                return VecV([Int(8, False, val=c) for c in str(v_.sval() if v_.signed else v_.val).encode()])
         # a file opened through OpenOptions: an export must replace what the file held (File::create = write + create + truncate)
         if path.startswith("std::fs::OpenOptions"):
             if name == "new":
